@@ -356,6 +356,49 @@ func c28Mutants(r *Rng, base c29Request, presigned bool, now int64, tsNs int64, 
 		}
 		add("unsigned-sensitive-added:"+strings.ToLower(hv[0]), "N", func(q *c29Request) { c28SetHeader(q, hv[0], hv[1]) })
 	}
+	// for EVERY signed header name h: unsigned sensitive headers whose name is a proper prefix of h, h plus a suffix,
+	// or "content-md5" when it occurs inside h — in the canonical MIME spelling (what arrives over the wire) and in
+	// lower / upper case (a header map built by other front ends). None of them is signed, all must be refused.
+	famSeen := map[string]bool{}
+	famIdx := 0
+	for _, h := range signedNames {
+		var names []string
+		if strings.HasPrefix(h, "x-amz-") {
+			for i := len("x-amz-"); i < len(h); i++ {
+				if h[i] == '-' {
+					names = append(names, h[:i], h[:i+1])
+				}
+			}
+			names = append(names, h[:len(h)-1], "x-amz-", h+"-id", h+"x", h+"-")
+		}
+		if h == "content-md5" {
+			names = append(names, "x-amz-content-md5", "x-amz-meta-content-md5")
+		}
+		if h != "content-md5" && strings.Contains(h, "content-md5") {
+			names = append(names, "content-md5")
+		}
+		for _, nm := range names {
+			signed := false
+			for _, x := range signedNames {
+				signed = signed || x == nm
+			}
+			if signed || famSeen[nm] || !(nm == "content-md5" || strings.HasPrefix(nm, "x-amz-")) {
+				continue
+			}
+			famSeen[nm] = true
+			spellings := []string{http.CanonicalHeaderKey(nm), nm, strings.ToUpper(nm)}
+			key := spellings[famIdx%3]
+			famIdx++
+			present := false
+			for _, bh := range base.Headers {
+				present = present || strings.EqualFold(bh[0], nm)
+			}
+			if present {
+				continue
+			}
+			add("unsigned-sensitive-name-family:"+key+"<"+h, "N", func(q *c29Request) { c28SetHeader(q, key, "injected") })
+		}
+	}
 	for _, hv := range [][]string{{"X-Custom", "1"}, {"Accept-Encoding", "gzip"}, {"X-Amzn-Trace-Id", "Root=1"}, {"Content-Md4", "x"}, {"Xx-Amz-Acl", "public-read"}} {
 		if c28HeaderIdx(base, hv[0]) >= 0 {
 			continue
@@ -583,6 +626,8 @@ func c28Base(r *Rng) (*c29Signed, c29ClientReq, string, string, int64, int64) {
 func (c28) Gen(r *Rng, tier string, n int) []string {
 	cases := make([]string, 0, n+200)
 	cases = append(cases, c28LargeBodyCases(r, tier)...)
+	cases = append(cases, c28NameFamilyCases(r)...)
+	cases = append(cases, c28StreamCases(r, tier)...)
 	for len(cases) < n {
 		if r.Chance(10) { // presigned URL whose validity is outside S3's 1..604800 s: never valid, although genuinely signed
 			c, _ := c29GenClient(r)
@@ -789,5 +834,193 @@ func c28LargeBodyCases(r *Rng, tier string) []string {
 	out = append(out, c28LargeBodyBase(r, c28MemLimit, r.Bool())...)
 	out = append(out, c28LargeBodyBase(r, c28MemLimit+1, false)...)
 	out = append(out, c28LargeBodyBase(r, sizes[2+r.Intn(2)], true)...)
+	return out
+}
+
+// ---------------------------------------------------------------------------------------------
+// every run: one header-signed and one presigned request whose signed headers have sensitive names that are proper
+// extensions of other sensitive names (x-amz-meta-owner-id / x-amz-meta-owner, x-amz-tagging-directive / x-amz-tagging,
+// x-amz-checksum-crc32c / x-amz-checksum-crc32, x-amz-meta-content-md5 / content-md5, ...), run through the whole
+// catalogue — so the prefix / substring class of "unsigned sensitive header added" is hit deterministically
+func c28NameFamilyCases(r *Rng) []string {
+	var out []string
+	for _, presign := range []bool{false, true} {
+		c := c29ClientReq{Method: "PUT", Host: "s3.localhost", WirePath: "/bucket/family", Headers: http.Header{
+			"X-Amz-Meta-Owner-Id":         {"42"},
+			"X-Amz-Tagging-Directive":     {"REPLACE"},
+			"X-Amz-Checksum-Crc32c":       {"AAAAAA=="},
+			"X-Amz-Meta-Content-Md5":      {"1B2M2Y8AsgTpgAmY7PhCfg=="},
+			"X-Amz-Copy-Source-Range":     {"bytes=0-9"},
+			"X-Amz-Object-Lock-Mode-Next": {"GOVERNANCE"},
+			"Content-Type":                {"text/plain"},
+		}, Body: "family", Presign: presign, ExpiresS: 900, PayloadMode: "hash"}
+		if presign {
+			c.Body, c.PayloadMode = "", ""
+		}
+		if r.Bool() {
+			c.Headers["Content-Md5"] = []string{"1B2M2Y8AsgTpgAmY7PhCfg=="}
+		}
+		cred := c29Creds[r.Intn(len(c29Creds))]
+		at, _ := c29GenTimes(r, presign, c.ExpiresS)
+		s, err := c29SdkSign(c, cred[0], cred[1], c29Region, at)
+		if err != nil {
+			panic(err)
+		}
+		now := at.UnixNano() + int64(r.Intn(300))*1e9
+		facts := []c29Fact{s.Fact}
+		out = append(out, c29AuthLine(now, c29Region, c29Creds, s.Req, facts, "Y"+tokBytes(cred[0])+"@original"))
+		exp := int64(300)
+		if presign {
+			exp = int64(c.ExpiresS)
+		}
+		for _, m := range c28Mutants(r, s.Req, presign, now, c28ParseTs(s.Fact.Ts), exp, s.Include, nil) {
+			if strings.HasPrefix(m.Name, "unsigned-") || strings.HasPrefix(m.Name, "signed-header") || strings.HasPrefix(m.Name, "signedheaders-") {
+				out = append(out, c29AuthLine(m.Now, m.Region, c29Creds, m.Req, facts, c28ExpectTok(m.Expect, cred[0])+"@"+m.Name))
+			}
+		}
+	}
+	return out
+}
+
+// ---------------------------------------------------------------------------------------------
+// signed streaming uploads (x-amz-content-sha256: STREAMING-AWS4-HMAC-SHA256-PAYLOAD, Content-Encoding: aws-chunked):
+// the seed signature comes from the SDK signer, the chunk signatures are computed here from the SigV4 streaming
+// specification with crypto/hmac.  Mutants alter the body at chunk boundaries; "accepted" = authenticated AND read to a
+// clean EOF by the handler behind the middleware (see c29RunAuth).
+type c28Chunk struct {
+	Data string
+	Sig  string
+}
+
+func c28ChunkLine(size int, sig string, withSig bool) string {
+	if !withSig {
+		return fmt.Sprintf("%x\r\n", size)
+	}
+	return fmt.Sprintf("%x;chunk-signature=%s\r\n", size, sig)
+}
+
+func c28Frame(chunks []c28Chunk, finalSig string) string {
+	var b strings.Builder
+	for _, c := range chunks {
+		b.WriteString(c28ChunkLine(len(c.Data), c.Sig, true) + c.Data + "\r\n")
+	}
+	b.WriteString(c28ChunkLine(0, finalSig, true) + "\r\n")
+	return b.String()
+}
+
+func c28StreamBase(r *Rng) []string {
+	cred := c29Creds[r.Intn(len(c29Creds))]
+	at, _ := c29GenTimes(r, false, 0)
+	now := at.UnixNano() + int64(r.Intn(300))*1e9
+	m := 2 + r.Intn(3)
+	chunks := make([]c28Chunk, m)
+	decoded := 0
+	for i := range chunks {
+		sz := []int{1, 7, 16, 64, 200}[r.Intn(5)]
+		chunks[i].Data = string(NewRng(uint64(100 + r.Intn(1000))).Bytes(sz))
+		chunks[i].Sig = strings.Repeat("0", 64)
+		decoded += sz
+	}
+	c := c29ClientReq{Method: "PUT", Host: "s3.localhost", WirePath: "/bucket/stream-" + strconv.Itoa(m), Headers: http.Header{"Content-Type": {"application/octet-stream"}},
+		Body: c28Frame(chunks, strings.Repeat("0", 64)), PayloadMode: "streaming", DecodedLen: decoded}
+	s, err := c29SdkSign(c, cred[0], cred[1], c29Region, at)
+	if err != nil {
+		panic(err)
+	}
+	// chunk signature chain (AWS SigV4 streaming): HMAC(signing key, "AWS4-HMAC-SHA256-PAYLOAD\n" ts "\n" scope "\n" previous "\n" sha256("") "\n" sha256(chunk))
+	f := s.Fact
+	key := c29Hmac(c29Hmac(c29Hmac(c29Hmac([]byte("AWS4"+f.Secret), f.Date), f.Region), f.Service), f.Term)
+	chunkSig := func(prev, data string) string {
+		return hex.EncodeToString(c29Hmac(key, "AWS4-HMAC-SHA256-PAYLOAD\n"+f.Ts+"\n"+f.Scope+"\n"+prev+"\n"+c29Sha("")+"\n"+c29Sha(data)))
+	}
+	prev := f.Mac
+	for i := range chunks {
+		chunks[i].Sig = chunkSig(prev, chunks[i].Data)
+		prev = chunks[i].Sig
+	}
+	finalSig := chunkSig(prev, "")
+	orig := c28Frame(chunks, finalSig)
+	if len(orig) != len(c.Body) {
+		panic("framed length changed")
+	}
+	base := s.Req
+	base.Body = orig
+	facts := []c29Fact{s.Fact}
+	var out []string
+	emit := func(name, expect, body string) {
+		q := c28Clone(base)
+		q.Body = body
+		e := expect
+		if e == "Y" {
+			e = "Y" + tokBytes(cred[0])
+		}
+		out = append(out, c29AuthLine(now, c29Region, c29Creds, q, facts, e+"@stream-"+name))
+	}
+	pad := func(b string) string { // keep the signed Content-Length: filler after the terminating chunk
+		for len(b) < len(orig) {
+			b += " "
+		}
+		return b
+	}
+	prefix := func(k int) string {
+		var b strings.Builder
+		for _, c := range chunks[:k] {
+			b.WriteString(c28ChunkLine(len(c.Data), c.Sig, true) + c.Data + "\r\n")
+		}
+		return b.String()
+	}
+	emit("original", "Y", orig)
+	for k := 0; k < m; k++ {
+		ks := strconv.Itoa(k)
+		emit("truncated-after-"+ks+"-bare-terminator-padded", "N", pad(prefix(k)+"0\r\n\r\n"))
+		emit("truncated-after-"+ks+"-bare-terminator", "N", prefix(k)+"0\r\n\r\n")
+		emit("truncated-after-"+ks+"-original-terminator", "N", pad(prefix(k)+c28ChunkLine(0, finalSig, true)+"\r\n"))
+		emit("truncated-after-"+ks+"-empty-signature-terminator", "N", pad(prefix(k)+"0;chunk-signature=\r\n\r\n"))
+		emit("truncated-after-"+ks+"-seed-signature-terminator", "N", pad(prefix(k)+c28ChunkLine(0, f.Mac, true)+"\r\n"))
+		emit("cut-after-"+ks+"-no-terminator", "N", prefix(k))
+		// the signed Content-Length kept: filler without a line feed / with CRLFs instead of the missing chunks and terminator
+		emit("cut-after-"+ks+"-padded-with-spaces", "N", pad(prefix(k)))
+		emit("cut-after-"+ks+"-padded-with-crlf", "N", prefix(k)+strings.Repeat("\r\n", (len(orig)-len(prefix(k)))/2))
+	}
+	emit("bare-terminator-after-all-chunks", "N", prefix(m)+"0\r\n\r\n")
+	{ // data chunk without signature extension
+		i := r.Intn(m)
+		emit("data-chunk-without-signature", "N", prefix(i)+c28ChunkLine(len(chunks[i].Data), "", false)+chunks[i].Data+"\r\n"+c28Frame(chunks[i+1:], finalSig))
+	}
+	{ // byte flip inside a chunk
+		i := r.Intn(m)
+		cs := append([]c28Chunk{}, chunks...)
+		d := []byte(cs[i].Data)
+		d[r.Intn(len(d))] ^= 0x01
+		cs[i].Data = string(d)
+		emit("chunk-data-flip", "N", c28Frame(cs, finalSig))
+	}
+	{ // chunk signature altered
+		i := r.Intn(m)
+		cs := append([]c28Chunk{}, chunks...)
+		cs[i].Sig = c28FlipHex(cs[i].Sig, r.Intn(64))
+		emit("chunk-signature-flip", "N", c28Frame(cs, finalSig))
+	}
+	emit("final-signature-flip", "N", c28Frame(chunks, c28FlipHex(finalSig, r.Intn(64))))
+	if m >= 2 {
+		i := r.Intn(m - 1)
+		cs := append([]c28Chunk{}, chunks...)
+		cs[i], cs[i+1] = cs[i+1], cs[i]
+		emit("chunks-swapped", "N", c28Frame(cs, finalSig))
+		emit("chunk-dropped", "N", pad(c28Frame(append(append([]c28Chunk{}, chunks[:i]...), chunks[i+1:]...), finalSig)))
+		emit("chunk-duplicated", "N", c28Frame(append(append(append([]c28Chunk{}, chunks[:i+1]...), chunks[i]), chunks[i+1:]...), finalSig))
+	}
+	return out
+}
+
+func c28StreamCases(r *Rng, tier string) []string {
+	nb := 2
+	if tier == "thorough" {
+		nb = 40
+	}
+	var out []string
+	for i := 0; i < nb; i++ {
+		out = append(out, c28StreamBase(r)...)
+	}
 	return out
 }
